@@ -188,10 +188,24 @@ end
 /-- the double `0.001` exactly. -/
 def pad001 : Rat := mkRat 1152921504606847 1152921504606846976
 
-/-- rational square root, absolute error below `2^-160` (plus the truncation of `x` to `2^-320`). -/
-def ratSqrt (x : Rat) : Rat :=
+/-- rational square root of a number in `[1/4, 16)` or so, absolute error below `2^-160`. -/
+def ratSqrtCore (x : Rat) : Rat :=
   if x ≤ 0 then 0 else
   mkRat (Int.ofNat (Nat.sqrt ((x.num.toNat * 4 ^ 160) / x.den))) (2 ^ 160)
+
+/-- rational square root with a RELATIVE error below `2^-158` at every magnitude: `x = y · 4^k` with `y` of order 1
+    (`k` from the bit lengths of numerator and denominator), `sqrt x = sqrt y · 2^k`.  (Cells are rescaled by exact
+    powers of two up to `2^±320` in the correspondence; an absolute precision would return 0 for a cell of size `2^-250`.) -/
+def ratSqrt (x : Rat) : Rat :=
+  if x ≤ 0 then 0 else
+  let e : Int := (Nat.log2 x.num.toNat : Int) - (Nat.log2 x.den : Int)
+  let k : Int := e / 2
+  if 0 ≤ k then
+    let p : Rat := ((4 ^ k.toNat : Nat) : Rat)
+    ratSqrtCore (x / p) * ((2 ^ k.toNat : Nat) : Rat)
+  else
+    let p : Rat := ((4 ^ (-k).toNat : Nat) : Rat)
+    ratSqrtCore (x * p) / ((2 ^ (-k).toNat : Nat) : Rat)
 
 /-- the four assertions at the end of `normalize` (`np.allclose(norms, 1)`: `|n - 1| ≤ 1e-8 + 1e-5`;
     `np.isclose(dot, 0, atol=1e-5)`: `|d| ≤ 1e-5`), evaluated on squared norms. -/
